@@ -110,6 +110,10 @@ type input struct {
 	// Expire, past its deadline (Err() = context.DeadlineExceeded)
 	Cancels []int `json:"cancels,omitempty"`
 	Expire  bool  `json:"expire,omitempty"`
+	// Then: the contents of the leaves are changed (hist.go) and the SAME registry value is asked
+	// again, once per phase; every listing is a case of its own, judged against the contents at
+	// the time of that listing
+	Then []phaseDesc `json:"then,omitempty"`
 }
 
 func (s *stackDesc) shape() string {
@@ -230,6 +234,10 @@ func repoManifests(rd repoDesc) (out [][2]string, contents [][]byte) {
 type built struct {
 	servers []*httptest.Server
 	tr      *http.Transport
+	// track: the contents of the leaves are going to be changed (input.Then): every leaf is built
+	// for this stack alone and remembered, in the order they are built (depth first, a before b)
+	track  bool
+	leaves []*leaf
 }
 
 func (b *built) close() {
@@ -240,11 +248,18 @@ func (b *built) close() {
 }
 
 func scripted(items []string, code string) ociregistry.Interface {
+	return scriptedVar(func() []string { return items }, code)
+}
+
+// scriptedVar: the items are asked for at every listing call (they can be changed between two
+// listings, hist.go)
+func scriptedVar(get func() []string, code string) ociregistry.Interface {
 	var failure error
 	if code != "" {
 		failure = ociregistry.NewError("scripted failure", code, nil)
 	}
 	strs := func(start string, all bool) ociregistry.Seq[string] {
+		items := get()
 		return func(yield func(string, error) bool) {
 			for _, it := range items {
 				if !all && !(start < it) {
@@ -267,6 +282,7 @@ func scripted(items []string, code string) ociregistry.Interface {
 			return strs(startAfter, false)
 		},
 		Referrers_: func(ctx context.Context, repo string, digest ociregistry.Digest, artifactType string) ociregistry.Seq[ociregistry.Descriptor] {
+			items := get()
 			return func(yield func(ociregistry.Descriptor, error) bool) {
 				for _, it := range items {
 					if !yield(ociregistry.Descriptor{MediaType: indexMediaType, Digest: ociregistry.Digest(it), Size: 1}, nil) {
@@ -343,6 +359,11 @@ func sharedMem(s *stackDesc) ociregistry.Interface {
 func build(s *stackDesc, b *built) ociregistry.Interface {
 	switch s.Kind {
 	case "mem":
+		if b.track {
+			r := buildMem(s)
+			b.leaves = append(b.leaves, &leaf{desc: s, mem: r.(*ocimem.Registry)})
+			return r
+		}
 		if s.volume() >= 900 {
 			// filling a registry with ten thousand names is most of the cost of a long case, and
 			// listings do not change it: one registry per distinct description
@@ -353,8 +374,16 @@ func build(s *stackDesc, b *built) ociregistry.Interface {
 		if s.ItemFam != nil {
 			return scripted(s.ItemFam.names(), s.ErrCode)
 		}
+		if b.track {
+			l := &leaf{desc: s, items: append([]string{}, s.Items...)}
+			b.leaves = append(b.leaves, l)
+			return scriptedVar(func() []string { return l.items }, s.ErrCode)
+		}
 		return scripted(s.Items, s.ErrCode)
 	case "funcs":
+		if b.track {
+			b.leaves = append(b.leaves, &leaf{desc: s})
+		}
 		return &ociregistry.Funcs{}
 	case "hop":
 		inner := build(s.Inner, b)
@@ -801,10 +830,10 @@ func coqLog(segs []segment) string {
 // ---------------------------------------------------------------- running one case
 
 type observed struct {
-	K      int `json:"k"`
-	Cancel int `json:"context_done_during_call,omitempty"` // a run of in.Cancels (K is 0)
-	Log  []entry   `json:"log,omitempty"`
-	Segs []segment `json:"log_segments,omitempty"` // instead of Log when the log has runs
+	K      int       `json:"k"`
+	Cancel int       `json:"context_done_during_call,omitempty"` // a run of in.Cancels (K is 0)
+	Log    []entry   `json:"log,omitempty"`
+	Segs   []segment `json:"log_segments,omitempty"` // instead of Log when the log has runs
 	// about the log (not written out)
 	calls, nerr, nitems int
 	lastBad             bool
@@ -833,21 +862,58 @@ func observe(k int, log []entry) observed {
 }
 
 func runCase(in input) (coq string, obs []observed, panicMsg string) {
+	res := runHistory(in)
+	return res[0].coq, res[0].obs, ""
+}
+
+// one listing of a history: the case term and what was observed
+type phaseResult struct {
+	coq string
+	obs []observed
+}
+
+// runHistory builds the stack and lists (the case proper); then, for every phase of in.Then,
+// changes the contents of the leaves and asks the same registry value again.  Every listing is a
+// case of its own whose stack term holds the contents at the time of that listing.
+func runHistory(in input) []phaseResult {
 	startB, err := hex.DecodeString(in.StartHex)
 	if err != nil {
 		panic(err)
 	}
-	start := string(startB)
-	b := &built{tr: &http.Transport{}}
+	b := &built{tr: &http.Transport{}, track: len(in.Then) > 0}
 	defer b.close()
-	maxCalls := callSlack + in.Stack.volume()
+	cur := in.Stack
+	if b.track {
+		cur = copyStack(in.Stack) // in.Stack stays what the case file says: the contents at the start
+	}
 	var reg ociregistry.Interface
-	if p, pv := hx.Recover(func() { reg = build(in.Stack, b) }); p {
+	if p, pv := hx.Recover(func() { reg = build(cur, b) }); p {
 		panic("cannot build the stack: " + pv)
 	}
+	res := []phaseResult{listPhase(reg, cur, in.Query, string(startB), in.Ks, in.Cancels, in.Expire)}
+	for i, ph := range in.Then {
+		for _, op := range ph.Ops {
+			if p, pv := hx.Recover(func() { b.apply(op) }); p {
+				panic(fmt.Sprintf("phase %d: cannot change the contents (%+v): %s", i+1, op, pv))
+			}
+		}
+		start := string(startB)
+		if ph.StartHex != nil {
+			start = mustHex(*ph.StartHex)
+		}
+		res = append(res, listPhase(reg, cur, in.Query, start, ph.Ks, ph.Cancels, in.Expire))
+	}
+	return res
+}
+
+// listPhase lists reg (whose contents st describes) against the consumers ks, iterates sequence
+// values again, and lists with contexts that become done.
+func listPhase(reg ociregistry.Interface, st *stackDesc, query queryDesc, start string, ks []int, cancels []int, expire bool) (res phaseResult) {
+	var obs []observed
+	maxCalls := callSlack + st.volume()
 	var runs []string
-	for _, k := range in.Ks {
-		log := runQuery(reg, in.Query, start, k, maxCalls)
+	for _, k := range ks {
+		log := runQuery(reg, query, start, k, maxCalls)
 		obs = append(obs, observe(k, log))
 		runs = append(runs, fmt.Sprintf("(%d, %s)", k, obs[len(obs)-1].coq))
 		if obs[len(obs)-1].lastBad {
@@ -861,7 +927,7 @@ func runCase(in input) (coq string, obs []observed, panicMsg string) {
 	if !bad {
 		firsts := []int{0}
 		lo, hi := 0, 0
-		for _, k := range in.Ks {
+		for _, k := range ks {
 			if k > 0 && (lo == 0 || k < lo) {
 				lo = k
 			}
@@ -875,11 +941,11 @@ func runCase(in input) (coq string, obs []observed, panicMsg string) {
 		if lo > 0 && lo != hi {
 			firsts = append(firsts, lo)
 		}
-		if in.Stack.volume() >= 900 && len(firsts) > 1 {
+		if st.volume() >= 900 && len(firsts) > 1 {
 			firsts = firsts[1:2] // a long listing: once, after the declining consumer
 		}
 		for _, k1 := range firsts {
-			logs := runQueryMany(reg, in.Query, start, []int{k1, 0}, maxCalls)
+			logs := runQueryMany(reg, query, start, []int{k1, 0}, maxCalls)
 			for i, k := range []int{k1, 0} {
 				obs = append(obs, observe(k, logs[i]))
 				runs = append(runs, fmt.Sprintf("(%d, %s)", k, obs[len(obs)-1].coq))
@@ -889,11 +955,11 @@ func runCase(in input) (coq string, obs []observed, panicMsg string) {
 	// the context becomes done during the j-th call of a consumer that accepts everything
 	var cruns []string
 	if !bad {
-		for _, j := range in.Cancels {
+		for _, j := range cancels {
 			if j < 1 {
 				continue
 			}
-			o := observe(0, runQueryCancel(reg, in.Query, start, j, in.Expire, maxCalls))
+			o := observe(0, runQueryCancel(reg, query, start, j, expire, maxCalls))
 			o.Cancel = j
 			obs = append(obs, o)
 			cruns = append(cruns, fmt.Sprintf("(%d, %s)", j, o.coq))
@@ -902,8 +968,9 @@ func runCase(in input) (coq string, obs []observed, panicMsg string) {
 			}
 		}
 	}
-	coq = fmt.Sprintf("{| c_stack := %s; c_query := %s; c_start := %s; c_runs := %s; c_cruns := %s |}",
-		coqStack(in.Stack), coqQuery(in.Query), hx.B(start), hx.List(runs), hx.List(cruns))
+	res.obs = obs
+	res.coq = fmt.Sprintf("{| c_stack := %s; c_query := %s; c_start := %s; c_runs := %s; c_cruns := %s |}",
+		coqStack(st), coqQuery(query), hx.B(start), hx.List(runs), hx.List(cruns))
 	return
 }
 
@@ -1499,21 +1566,10 @@ func main() {
 	out := hx.NewOut(cfg, "Obs.C05")
 	out.ShardMax = 260            // one wave of at most 16 coqc processes in the quick tier
 	var ready map[*stackDesc]*ran // the long cases, run in the background
-	addNow := func(in input, origin string) {
-		if int(stuck.Load()) >= maxStuck {
-			return // iterators keep hanging: what has been recorded is enough to report
-		}
-		in.Start = fmt.Sprintf("%q", mustHex(in.StartHex))
-		var coq string
-		var obs []observed
-		if r, ok := ready[in.Stack]; ok {
-			<-r.done
-			if r.coq == "" {
-				return
-			}
-			coq, obs = r.coq, r.obs
-		} else {
-			coq, obs, _ = runCase(in)
+	record := func(in input, phase int, coq string, obs []observed, ks, cancels []int, startHex string, origin string) {
+		desc := map[string]any{"input": in, "observed": obs, "origin": origin}
+		if phase > 0 {
+			desc["judged"] = fmt.Sprintf("the listing after phase %d of input.then (observed: that listing)", phase)
 		}
 		shape := in.Stack.shape()
 		nerr, nitems, maxlog := 0, 0, 0
@@ -1526,9 +1582,20 @@ func main() {
 		if nerr > 0 {
 			outcome = "error"
 		}
-		if out.Add(hx.Case{Coq: coq, Desc: map[string]any{"input": in, "observed": obs, "origin": origin},
-			Tags: map[string]any{"class": in.Query.Kind + "/" + shape, "query": in.Query.Kind, "shape": shape, "outcome": outcome}}) {
+		class := in.Query.Kind + "/" + shape
+		if phase > 0 {
+			class += " listed again after its contents changed"
+		}
+		if out.Add(hx.Case{Coq: coq, Desc: desc,
+			Tags: map[string]any{"class": class, "query": in.Query.Kind, "shape": shape, "outcome": outcome}}) {
 			out.Count("origin:" + origin)
+			if phase > 0 {
+				out.Count(fmt.Sprintf("history:listing-after-phase:%d", min(phase, 4)))
+				for _, op := range in.Then[phase-1].Ops {
+					out.Count("history:change:" + op.Kind)
+				}
+				out.Count("history:change-kind:" + in.Then[phase-1].Why)
+			}
 			out.Count("query:" + in.Query.Kind)
 			out.Count(fmt.Sprintf("hops:%d", in.Stack.hops()))
 			out.Count("outcome:" + outcome)
@@ -1539,7 +1606,7 @@ func main() {
 				out.Count("layer:" + w)
 			}
 			startKind := "plain"
-			st := mustHex(in.StartHex)
+			st := mustHex(startHex)
 			switch {
 			case st == "":
 				startKind = "absent"
@@ -1551,10 +1618,10 @@ func main() {
 				startKind = "metachar"
 			}
 			out.Count("start:" + startKind)
-			out.Stats["listings"] += len(in.Ks)
-			out.Stats["listings"] += len(in.Cancels)
-			if len(in.Cancels) > 0 {
-				out.Stats["cancelled_listings"] += len(in.Cancels)
+			out.Stats["listings"] += len(ks)
+			out.Stats["listings"] += len(cancels)
+			if len(cancels) > 0 {
+				out.Stats["cancelled_listings"] += len(cancels)
 				out.Count("context:" + map[bool]string{false: "cancelled", true: "deadline"}[in.Expire])
 				out.Count("context-done-under:" + ctxPath(in.Stack, in.Query.Kind))
 			}
@@ -1562,6 +1629,36 @@ func main() {
 				out.Count("long:names>=" + map[bool]string{false: "900", true: "9999"}[vol >= 9999])
 				out.Count("long:pages:" + pagesOf(in.Stack))
 			}
+		}
+	}
+	addNow := func(in input, origin string) {
+		if int(stuck.Load()) >= maxStuck {
+			return // iterators keep hanging: what has been recorded is enough to report
+		}
+		in.Start = fmt.Sprintf("%q", mustHex(in.StartHex))
+		var results []phaseResult
+		if r, ok := ready[in.Stack]; ok {
+			<-r.done
+			if r.coq == "" {
+				return
+			}
+			results = []phaseResult{{r.coq, r.obs}}
+		} else {
+			results = runHistory(in)
+		}
+		for i, pr := range results {
+			// the i-th listing of a history: what it takes to get there, and that listing's consumers
+			ini := in
+			ini.Then = in.Then[:i:i]
+			ks, cancels, startHex := in.Ks, in.Cancels, in.StartHex
+			if i > 0 {
+				ph := in.Then[i-1]
+				ks, cancels = ph.Ks, ph.Cancels
+				if ph.StartHex != nil {
+					startHex = *ph.StartHex
+				}
+			}
+			record(ini, i, pr.coq, pr.obs, ks, cancels, startHex, origin)
 		}
 	}
 	// the long listings (long.go) cost more to evaluate than the others: they are spread evenly
@@ -1837,6 +1934,14 @@ func main() {
 		for _, s := range g2.editStarts(lv.names, 5) {
 			add(withCancels(input{Stack: st, Query: queryDesc{Kind: lv.q, Repo: lv.repo}, StartHex: hexOf(s), Ks: ksFor(len(lv.names), topPage(st), false)}, len(lv.names), topPage(st)), "random-family")
 		}
+	}
+	// --- page sizes at the edges of the integer ranges (huge.go)
+	for _, in := range hugeInputs(rand.New(rand.NewSource(cfg.Seed^0x7fff)), cfg.Thorough()) {
+		add(in, "huge-page-size")
+	}
+	// --- the contents change between two listings of the same registry value (hist.go)
+	for _, in := range historyInputs(rand.New(rand.NewSource(cfg.Seed^0x415)), cfg.Thorough()) {
+		add(in, "history")
 	}
 	for _, lc := range pending {
 		addNow(lc.in, lc.origin)
